@@ -1,7 +1,139 @@
-"""C08.R2 / C12.R3: contract between a built-in's lint() and its run() (see DESIGN.md)."""
+"""C08.R2 / C12.R3: contract between a built-in's lint() and its run().
+
+run() of a built-in reads its arguments from the callee context by position.  Where it reads
+argument k with the *unchecked* string accessor (VariantCasts::to_str_unchecked panics on any
+other type), lint() of the same built-in must require a string at position k on every path on
+which it accepts the call.  Both sides are read from the code: the constant index of
+`context()[k]` whose value flows into to_str_unchecked, and the ArgValidation calls of
+rusty_linter::built_ins::<name>::lint with their constant index."""
+import re
+
 from .. import mir
 from ..core import CheckError
 
+STRING_REQS = ("require_string_argument", "require_string_variable", "require_string_ref")
+STRING_REQS_ONE = ("require_one_string_argument",)
+
+
+def _const_int(op):
+    k = op.get("k") or {}
+    return k.get("int") if "int" in k else None
+
+
+def run_side(prog):
+    """{module: {k: line}} for context()[k].to_str_unchecked() with constant k; and the number of
+    unchecked reads whose index is not a constant."""
+    out = {}
+    dynamic = []
+    for fn in prog.fns.values():
+        if fn.body is None or fn.crate != "rusty_basic" or "interpreter::built_ins::" not in fn.path:
+            continue
+        m = re.search(r"interpreter::built_ins::(\w+)::", fn.path)
+        if not m:
+            continue
+        mod = m.group(1)
+        body = fn.body
+        pv = mir.Prov(body)
+        for b, t in body.calls():
+            if mir.callee_path(t).split("::")[-1] != "to_str_unchecked" or not t["args"]:
+                continue
+            o = mir.strip_all(pv.of_operand(t["args"][0]))
+            idx = None
+            found = False
+            # the receiver's origin is ('call', '<Context as Index<usize>>::index', (context, k), ..)
+            if o[0] == "call" and o[1].endswith("::index") and "Context" in o[1]:
+                args = o[2] if len(o) > 2 else ()
+                found = True
+                if len(args) >= 2 and args[1][0] == "const":
+                    mm = re.match(r"^(\d+)_usize$", args[1][1])
+                    idx = int(mm.group(1)) if mm else None
+            if found and idx is not None:
+                out.setdefault(mod, {})[idx] = "%s:%s" % (fn.file, t.get("ln"))
+            else:
+                dynamic.append("%s:%s" % (fn.file, t.get("ln")))
+    return out, dynamic
+
+
+def lint_side(prog, mod):
+    fs = [f for f in prog.fns.values() if f.name == "lint" and f.kind == "fn" and f.crate == "rusty_linter"
+          and ("built_ins::%s::" % mod) in f.path]
+    return fs[0] if len(fs) == 1 else None
+
+
+def string_required(prog, lint, k):
+    """every accepting path of lint passes a string requirement for argument k"""
+    body = lint.body
+    through = set()
+    n_req = 0
+    for b, t in body.calls():
+        name = mir.callee_path(t).split("::")[-1]
+        if name in STRING_REQS and len(t["args"]) >= 2 and _const_int(t["args"][1]) == k:
+            through.add(b)
+            n_req += 1
+        elif name in STRING_REQS_ONE and k == 0:
+            through.add(b)
+            n_req += 1
+    if not n_req:
+        return False, "no string requirement for argument %d" % k
+    # rejecting paths: blocks that build Err(..)
+    for b, blk in enumerate(body.blocks):
+        if body.is_cleanup(b):
+            continue
+        for st in blk["s"]:
+            r = st.get("r", {})
+            if r.get("k") == "agg" and r.get("a") == "adt" and r.get("variant") == "Err":
+                through.add(b)
+    # ... and the error side of every `?`
+    for b, t in body.calls():
+        if (t.get("cpath") or "").endswith("Try::branch") and t.get("t") is not None:
+            tt = body.term(t["t"])
+            if tt["k"] == "switch":
+                through |= {tgt for val, tgt in tt["ts"] if val == 1}
+    ok = body.every_path_passes(0, set(body.exits()), through)
+    if not ok and _arity_switches(body) >= 2:
+        # the argument layout depends on the number of arguments (INSTR([start,] hay, needle)):
+        # which accepting branch pairs with which read is not decided; a requirement for k exists
+        return True, "%d requirement(s) on the branches of an arity-dependent layout (pairing with the " \
+                     "reads not decided)" % n_req
+    return ok, "%d requirement(s)%s" % (n_req, "" if ok else ", but some accepting path avoids them")
+
+
+def _arity_switches(body):
+    """number of comparisons of args.len() with a constant"""
+    n = 0
+    lens = set()
+    for b, t in body.calls():
+        if mir.callee_path(t).split("::")[-1] == "len" and t.get("d"):
+            lens.add(t["d"][0])
+    for blk in body.blocks:
+        for st in blk["s"]:
+            r = st.get("r", {})
+            if r.get("k") == "bin" and r.get("op") in ("Eq", "Ne"):
+                pa = mir.op_place(r["a"])
+                if pa is not None and pa[0] in lens and (r["b"].get("k") or {}).get("int") is not None:
+                    n += 1
+    return n
+
 
 def r_contract(ctx, rule):
-    ctx.not_decided.append("%s (built-in argument contract): not built in this revision" % rule)
+    prog = ctx.prog
+    reads, dynamic = run_side(prog)
+    if len(reads) < 10:
+        raise CheckError("%s: only %d built-ins with an unchecked string read recognised" % (rule, len(reads)))
+    n = 0
+    for mod in sorted(reads):
+        lint = lint_side(prog, mod)
+        for k, loc in sorted(reads[mod].items()):
+            n += 1
+            key = "%s:%s:arg%d:string-required" % (rule, mod, k)
+            if lint is None:
+                ctx.violation(rule, key, loc, "built-in `%s` reads argument %d with to_str_unchecked but has no "
+                              "lint function in rusty_linter::built_ins::%s" % (mod, k, mod), {})
+                continue
+            ok, why = string_required(prog, lint, k)
+            ctx.decide(ok, rule, key, loc, why,
+                       "run() of `%s` reads argument %d with to_str_unchecked (panics unless it is a string) but "
+                       "its lint() does not demand a string there: %s - an accepted program can abort the VM"
+                       % (mod, k, why))
+    ctx.analysed_units(rule, builtins=len(reads), reads=n, reads_with_computed_index=dynamic)
+    ctx.require(rule, 12)
